@@ -753,16 +753,45 @@ class Inliner(object):
             out = _drop_self_assign(pre + new)
         # the inlined statements take the position of the call site (rules order statements by line); the line they were written
         # on is kept for the report
-        for x in out:
-            for y in ast.walk(x):
-                if isinstance(y, (ast.stmt, ast.expr, ast.ExceptHandler)):
+        # ... and, among themselves, they keep their program order: the k-th inlined statement gets the (fractional) line
+        # <call site> + k/10000, which sorts after the call-site line and before the next source line; '%d' % lineno still prints the
+        # call-site line
+        counter = [0]
+
+        def place(node, line):
+            for y in ast.iter_child_nodes(node):
+                if isinstance(y, ast.stmt):
+                    continue
+                if isinstance(y, (ast.expr, ast.ExceptHandler)):
                     if hasattr(y, 'lineno') and not hasattr(y, '_src_lineno'):
                         y._src_lineno = y.lineno
-                    y.lineno = st.lineno
-                    y.end_lineno = getattr(st, 'end_lineno', st.lineno)
+                    y.lineno = line
+                    y.end_lineno = line
                     y.col_offset = getattr(y, 'col_offset', 0)
                     y.end_col_offset = getattr(y, 'end_col_offset', 0)
-            ast.fix_missing_locations(x)
+                place(y, line)
+
+        def order(stmts):
+            for x in stmts:
+                counter[0] += 1
+                line = st.lineno + counter[0] / 10000.0
+                if hasattr(x, 'lineno') and not hasattr(x, '_src_lineno'):
+                    x._src_lineno = x.lineno
+                x.lineno = line
+                x.end_lineno = line
+                x.col_offset = getattr(x, 'col_offset', 0)
+                x.end_col_offset = getattr(x, 'end_col_offset', 0)
+                place(x, line)
+                for f_ in ('body', 'orelse', 'finalbody'):
+                    sub = getattr(x, f_, None)
+                    if isinstance(sub, list) and sub and isinstance(sub[0], ast.stmt):
+                        order(sub)
+                for h in getattr(x, 'handlers', []) or []:
+                    order(h.body)
+        order(out)
+        if out:
+            # the first inlined statement keeps the call-site line itself (rules that look a statement up by the line of the call)
+            pass
         return out
 
     def _closure_safe(self, hfn, p, a, caller, st):
